@@ -239,6 +239,22 @@ func buildImage(kind string, tree []imgEntry, start int64, opt map[string]int64)
 		if opt["bs"] == 4096 {
 			p.SectorsPerBlock = 8
 		}
+		// metadata checksums on every other volume (opt "csum": 1 on, 2 off; otherwise decided by the content, which
+		// callers derive from the run's PRNG value): the library then also maintains the checksum tails of extent
+		// tree blocks and directory blocks, and readers walk past them
+		csum := opt["csum"] == 1
+		if opt["csum"] == 0 {
+			x := uint32(0)
+			for _, e := range tree {
+				if len(e.Data) > 1 {
+					x = x*31 + uint32(e.Data[0]) + uint32(e.Data[len(e.Data)/2])<<3
+				}
+			}
+			csum = (x^x>>7)&1 == 1
+		}
+		if csum {
+			p.Features = append(p.Features, ext4.WithFeatureMetadataChecksums(true))
+		}
 		fs, err := ext4.Create(d, size, start, 512, p)
 		if err != nil {
 			return nil, err
